@@ -237,7 +237,7 @@ ATOMS: dict[str, str] = {
     "frozenset_B": "frozenset[B]", "Awaitable_A": "Awaitable[A]",
     # protocols
     "HasX": "HasX", "HasXY": "HasXY", "HasXro": "HasXro", "Closer": "Closer", "GenP_A": "GenP[A]", "GenP_B": "GenP[B]",
-    "SinkP_A": "SinkP[A]", "SinkP_B": "SinkP[B]", "SinkP_D": "SinkP[D]", "SinkP_object": "SinkP[object]",
+    "SinkP_A": "SinkP[A]", "SinkP_B": "SinkP[B]", "SinkP_D": "SinkP[D]", "SinkP_object": "SinkP[object]", "SinkP_int": "SinkP[int]", "SinkP_float": "SinkP[float]",
     "GenP_object": "GenP[object]", "GenPInv_A": "GenPInv[A]", "GenPInv_B": "GenPInv[B]", "RecP": "RecP", "RecQ": "RecQ", "CallP": "CallP",
     "Empty": "Empty", "ImplX": "ImplX", "ImplXY": "ImplXY", "ImplXbool": "ImplXbool", "ImplClose": "ImplClose",
     "ImplRec": "ImplRec", "ImplRecQ": "ImplRecQ", "ImplCall": "ImplCall", "NominalX": "NominalX",
@@ -253,7 +253,8 @@ ATOMS: dict[str, str] = {
     "tuple_empty": "tuple[()]", "tuple_A_var": "tuple[A, ...]", "tuple_B_var": "tuple[B, ...]",
     "tuple_int_var": "tuple[int, ...]", "tuple_Any_var": "tuple[Any, ...]",
     "tuple_A_Bvar": "tuple[A, Unpack[tuple[B, ...]]]", "tuple_Bvar_A": "tuple[Unpack[tuple[B, ...]], A]",
-    "tuple_A_Bvar_C": "tuple[A, Unpack[tuple[B, ...]], C]", "tuple_A_B_B": "tuple[A, B, B]", "tuple_bare": "tuple",
+    "tuple_A_Bvar_C": "tuple[A, Unpack[tuple[B, ...]], C]", "tuple_A_B_B": "tuple[A, B, B]", "tuple_obj_obj": "tuple[object, object]", "tuple_obj": "tuple[object]",
+    "tuple_Avar_obj": "tuple[Unpack[tuple[A, ...]], object]", "tuple_bare": "tuple",
     "NT": "NT", "NTsub": "NTsub", "NTA": "NTA", "NTG_int": "NTG[int]", "NTG_bool": "NTG[bool]",
     # typed dicts
     "TD1": "TD1", "TD2": "TD2", "TD2b": "TD2b", "TDopt": "TDopt", "TDro": "TDro", "TDroA": "TDroA", "TDroB": "TDroB",
